@@ -88,7 +88,7 @@ func main() {
 	if replay != "" {
 		os.Exit(c.ReplayFile(replay))
 	}
-	p.Run(c)
+	c.Protect(func() { p.Run(c) })
 	rc := c.Finish()
 	pprof.StopCPUProfile()
 	os.Exit(rc)
